@@ -836,7 +836,10 @@ where
             .waiters
             .push_back(crate::loader::Waiter::Sync(thread::current()));
           drop(inner); // IMPORTANT: Unlock before parking.
+          #[cfg(not(excsn_fibre_verif))]
           thread::park();
+          #[cfg(excsn_fibre_verif)]
+          crate::verif::sched_park();
           inner = future.inner.lock(); // Re-acquire lock after being woken up.
         }
       }
